@@ -9,7 +9,10 @@ are understood and select a *variant* of the model instead of breaking the tie:
     allocator other than mju_malloc whose body in engine_util_errmem.c does not call mju_error
     (then the caller's cleanup runs before the error is raised): v_mbuf / v_dbuf / v_darena;
   * mj_loadModelBuffer calls mj_deleteModel before returning NULL on "ran out of data while reading
-    structs": v_lstructs.
+    structs": v_lstructs;
+  * the arena-failure cleanup of mj_makeRawData clears d->buffer after freeing it: v_dnull;
+  * d->nplugin is cleared by the in-place mj_makeRawData right after freeDataBuffers and raised instance by
+    instance in mj_initPlugin (both, or neither): v_npl.
 Anything else raises TranslatorError naming the function and the first differing token.
 """
 import os, re, sys
@@ -22,7 +25,8 @@ TOKEN_RE = re.compile(
     r"\b(" + ALLOC_RE + r"|mju_free|mj_deleteModel|mj_deleteData|mj_deleteVFS|mju_error|mjERROR|mju_warning|return|"
     r"mj_makeModel|mj_makeRawData|mj_makeData|mj_initPlugin|mj_resetData|_resetData|freeModelBuffers|"
     r"freeDataBuffers|mj_copyDataVisual|mju_threadpool|mj_step|mj_setConst|longjmp|setjmp|throw|"
-    r"TryCompile|mj_saveModel|mju_writeResource|mj_defaultVFS)\b(\s*\(\s*\"((?:[^\"\\]|\\.)*)\")?")
+    r"TryCompile|mj_saveModel|mju_writeResource|mj_defaultVFS|MakeData|Compile|catch)\b(\s*\(\s*\"((?:[^\"\\]|\\.)*)\")?"
+    r"|(d->buffer\s*=\s*NULL\s*;)|(d->nplugin\s*=\s*[^;=]+;)")
 
 # (file, name used in messages, regex matching the start of the definition)
 FUNCS = [
@@ -44,6 +48,8 @@ FUNCS = [
     ("src/user/user_resource.cc", "mju_writeResource", r"^mjtSize mju_writeResource\(const char\*\s+name,"),
     ("src/user/user_model.cc", "compilerLogHandler", r"^static void compilerLogHandler\(const mjLogMessage\* msg\) \{"),
     ("src/user/user_model.cc", "mjCModel::Compile", r"^mjModel\* mjCModel::Compile\(const mjVFS\* vfs, mjModel\*\* m\) \{"),
+    ("src/user/user_model.cc", "mjCModel::MakeData", r"^void mjCModel::MakeData\(const mjModel\* m, mjData\*\* dest\) \{"),
+    ("src/user/user_api.cc", "mj_recompile", r"^\[\[nodiscard\]\] int mj_recompile\(mjSpec\* s, const mjVFS\* vfs, mjModel\* m, mjData\* d\) \{"),
     ("src/user/user_model.cc", "mjCModel::TryCompile", r"^void mjCModel::TryCompile\(mjModel\*& m, mjData\*& d, const mjVFS\* vfs\) \{"),
 ]
 
@@ -89,7 +95,7 @@ EXPECTED = {
         "freeDataBuffers", "ALLOC:mju_malloc", "mjERROR:could not allocate mjData",
         "mju_free", "mju_warning:Invalid data: ", "return",
         "ALLOC@dbuf", "mju_free", "mjERROR:could not allocate mjData buffer",
-        "ALLOC@darena", "mju_free", "mju_free", "mjERROR:could not allocate mjData arena"],
+        "ALLOC@darena", "mju_free", "NULLIFY@dnull", "mju_free", "mjERROR:could not allocate mjData arena"],
     "mj_makeData": ["mj_makeRawData", "mj_initPlugin", "mj_resetData", "return"],
     "mj_copyDataVisual": [
         "mj_makeRawData", "mj_initPlugin",
@@ -106,8 +112,10 @@ EXPECTED = {
     "mj_deleteData": ["mju_threadpool", "freeDataBuffers", "mju_free"],
     "mju_writeResource": ["return", "ALLOC:mju_malloc", "mj_defaultVFS", "mj_deleteVFS", "mju_free", "return"],
     "compilerLogHandler": ["longjmp"],
+    "mjCModel::MakeData": ["mj_makeRawData", "mj_initPlugin", "mj_resetData"],
+    "mj_recompile": ["Compile", "mj_deleteData", "return", "MakeData", "catch", "return", "return"],
     "mjCModel::Compile": [
-        "throw", "setjmp", "throw", "TryCompile",
+        "throw", "setjmp", "throw", "TryCompile", "catch",
         "mj_deleteModel", "mj_deleteData", "return", "mju_warning:%s", "return"],
     "mjCModel::TryCompile": [
         "mj_makeModel", "throw", "mj_makeRawData", "throw", "mj_resetData", "mj_setConst", "throw",
@@ -161,6 +169,12 @@ def raw_tokens(body):
     toks = []
     for m in TOKEN_RE.finditer(body):
         name, msg = m.group(1), m.group(3)
+        if m.group(4):
+            toks.append("d->buffer=NULL")
+            continue
+        if m.group(5):
+            toks.append(re.sub(r"\s+", "", m.group(5)).rstrip(";"))
+            continue
         if name in ("mju_error", "mjERROR", "mju_warning"):
             toks.append("%s:%s" % (name, msg if msg is not None else "?"))
         else:
@@ -184,7 +198,7 @@ def scan(repo):
     """returns (variant dict, info dict); raises TranslatorError when a function no longer has the shape
     the model was written against."""
     texts = {}
-    variant = {"v_mbuf": False, "v_dbuf": False, "v_darena": False, "v_lstructs": False}
+    variant = {"v_mbuf": False, "v_dbuf": False, "v_darena": False, "v_lstructs": False, "v_dnull": False, "v_npl": False}
     info = {"functions": {}, "allocators": {}}
     nonraising = nonraising_allocators(repo)
     info["allocators"] = nonraising
@@ -194,6 +208,13 @@ def scan(repo):
             _scan_one(repo, rel, fname, start_re, texts, variant, info, nonraising)
         except F.TranslatorError as e:
             errors.append(str(e))
+    npl = info.get("nplugin", {})
+    if len(npl) == 2 and len(set(npl.values())) == 1:
+        variant["v_npl"] = bool(list(npl.values())[0])
+    elif len(npl) == 2:
+        variant["v_npl"] = False
+        errors.append("cannot read src/engine/engine_io.c: mj_initPlugin and in-place mj_makeRawData disagree on how d->nplugin "
+                      "is maintained (%s): no model variant" % npl)
     if errors:
         err = F.TranslatorError("; ".join(errors))
         err.variant = variant
@@ -210,6 +231,23 @@ def _scan_one(repo, rel, fname, start_re, texts, variant, info, nonraising):
                 raise F.TranslatorError("cannot read %s: %s" % (rel, e))
         body, line = func_body(texts[rel], start_re, fname, rel)
         toks = raw_tokens(body)
+        if fname not in ("mj_recompile", "mjCModel::Compile"):
+            toks = [t for t in toks if t not in ("Compile", "MakeData", "catch")]
+        # assignments to d->nplugin are checked apart (they decide v_npl), the other tokens as before
+        if fname in ("mj_initPlugin", "mj_makeRawData"):
+            nps = [t for t in toks if t.startswith("d->nplugin=")]
+            after_free = any(toks[k] == "freeDataBuffers" and toks[k + 1] == "d->nplugin=0" for k in range(len(toks) - 1))
+            if fname == "mj_initPlugin":
+                shape = {("d->nplugin=m->nplugin",): False, ("d->nplugin=0", "d->nplugin=i+1"): True}.get(tuple(nps))
+            else:
+                shape = {("d->nplugin=0",): False, ("d->nplugin=0", "d->nplugin=0"): True}.get(tuple(nps))
+                if shape is True and not after_free:
+                    shape = None
+            if shape is None:
+                raise F.TranslatorError("cannot read %s:%d: %s: assignments to d->nplugin %s are not one of the two modelled shapes"
+                                        % (rel, line, fname, nps))
+            info.setdefault("nplugin", {})[fname] = shape
+        toks = [t for t in toks if not t.startswith("d->nplugin=")]
         if fname == "mjCModel::TryCompile":
             if TRYCOMPILE_FROM not in toks:
                 raise F.TranslatorError("cannot read %s:%d: %s no longer calls %s" % (rel, line, fname, TRYCOMPILE_FROM))
@@ -224,6 +262,8 @@ def _scan_one(repo, rel, fname, start_re, texts, variant, info, nonraising):
         for key, pos, n in (("v_mbuf", 1, 2), ("v_dbuf", 1, 3), ("v_darena", 2, 3)):
             if fname == {"v_mbuf": "mj_makeModel", "v_dbuf": "mj_makeRawData", "v_darena": "mj_makeRawData"}[key] and len(allocs) == n:
                 variant[key] = allocs[pos] != "mju_malloc" and bool(nonraising.get(allocs[pos], False))
+        if fname == "mj_makeRawData":
+            variant["v_dnull"] = "d->buffer=NULL" in toks
         if fname == "mj_loadModelBuffer" and ("mju_warning:" + STRUCTS_MSG) in toks:
             k = toks.index("mju_warning:" + STRUCTS_MSG)
             variant["v_lstructs"] = k + 1 < len(toks) and toks[k + 1] == "mj_deleteModel"
@@ -238,6 +278,11 @@ def _scan_one(repo, rel, fname, start_re, texts, variant, info, nonraising):
         got = []
         i = 0
         for e in exp:
+            if e == "NULLIFY@dnull":
+                if i < len(toks) and toks[i] == "d->buffer=NULL":
+                    variant["v_dnull"] = True; i += 1
+                got.append(e)
+                continue
             if e == "DELETE@lstructs":
                 if i < len(toks) and toks[i] == "mj_deleteModel":
                     variant["v_lstructs"] = True; got.append(e); i += 1
